@@ -22,7 +22,7 @@ TraceFile == IOEnv.ORB_TRACE
 Trace == ndJsonDeserialize(TraceFile)
 
 \* which property predicates this run evaluates (driver passes a comma-less list via env)
-PropIds == {"C01", "C02", "C03", "C04", "C05", "C06", "C14", "C08", "C09", "C10", "C11", "C12", "C17", "C18"}
+PropIds == {"C01", "C02", "C03", "C04", "C05", "C06", "C14", "C20", "C17b", "C08", "C09", "C10", "C11", "C12", "C17", "C18"}
 
 -----------------------------------------------------------------------------
 (* JSON -> specification values                                            *)
@@ -108,12 +108,15 @@ ToStep(ev) ==
        x |-> IF ev.in.t = "reimport"
              THEN [exportOk |-> ev.obs.x.exportOk, validateOk |-> ev.obs.x.validateOk, initOk |-> ev.obs.x.initOk,
                    sameExport |-> ev.obs.x.sameExport, fullOk |-> ev.obs.x.fullOk]
-             ELSE DummyX ]
+             ELSE DummyX,
+       idres |-> IF ev.in.t = "ident" THEN ev.obs.x.ids ELSE <<>>,
+       gen |-> IF ev.in.t = "gendoc" THEN [validateOk |-> ev.obs.x.validateOk, initOk |-> ev.obs.x.initOk]
+               ELSE [validateOk |-> FALSE, initOk |-> FALSE] ]
 
 -----------------------------------------------------------------------------
 (* Conformance of the observed step with Apply, per variable group         *)
 
-Groups == {"ack", "bal", "supply", "pause", "params", "stats", "env", "req", "fired", "actions"}
+Groups == {"ack", "bal", "supply", "pause", "params", "stats", "env", "req", "fired", "actions", "ident", "genesis"}
 
 Mismatch_(ev, S) ==
   LET exp == Apply(S.pre, ev.in)
@@ -128,6 +131,8 @@ Mismatch_(ev, S) ==
           [] g = "params" -> <<exp.st.maxPT, exp.st.hasParams>> # <<S.post.maxPT, S.post.hasParams>>
           [] g = "stats"  -> <<exp.st.amt, exp.st.cnt>> # <<S.post.amt, S.post.cnt>>
           [] g = "env"    -> exp.st.env # S.post.env
+          [] g = "ident"  -> ev.in.t = "ident" /\ IdentModel(S.pre, ev.in) # S.idres
+          [] g = "genesis" -> ev.in.t = "gendoc" /\ GenValid(ev.in.g) # S.gen.validateOk
           [] g = "fired"  -> exp.fired # S.fired
           [] g = "actions" -> S.hasTrace /\ S.ok /\ exp.trace # S.perAction
           [] g = "req"    -> IF S.ok /\ ev.in.t = "recv"
@@ -138,7 +143,7 @@ PropHolds(c, S) ==
   CASE c = "C01" -> Prop_C01(S) [] c = "C02" -> Prop_C02(S) [] c = "C03" -> Prop_C03(S)
     [] c = "C04" -> Prop_C04(S) [] c = "C05" -> Prop_C05(S) [] c = "C06" -> Prop_C06(S) [] c = "C08" -> Prop_C08(S)
     [] c = "C09" -> Prop_C09(S) [] c = "C10" -> Prop_C10(S) [] c = "C11" -> Prop_C11(S)
-    [] c = "C14" -> Prop_C14(S) [] c = "C12" -> Prop_C12(S) [] c = "C17" -> Prop_C17(S) [] c = "C18" -> Prop_C18(S)
+    [] c = "C14" -> Prop_C14(S) [] c = "C20" -> Prop_C20(S) [] c = "C17b" -> Prop_C17b(S) [] c = "C12" -> Prop_C12(S) [] c = "C17" -> Prop_C17(S) [] c = "C18" -> Prop_C18(S)
     [] OTHER -> TRUE
 
 \* antecedent flags: on which properties this step is a non-trivial evaluation
@@ -153,11 +158,20 @@ Ante(S) ==
        [] c = "C08" -> (HasPayload(S) /\ (S.pre.pProto # {} \/ S.pre.pCC # {})) \/ IsPauseMsg(S)
        [] c = "C09" -> (HasPayload(S) /\ S.pre.pAct # {}) \/ (IsAdmin(S) /\ S.in.rpc \in ActionRpcs)
        [] c = "C14" -> IsRecv(S) /\ S.in.mk \in {"MUT", "RANDOM", "RAW"}
+       [] c = "C20" -> S.in.t = "ident"
+       [] c = "C17b" -> S.in.t = "gendoc" /\ S.gen.validateOk
        [] c = "C10" -> IsAdmin(S)
        [] c = "C11" -> IsOrbiterPacket(S) /\ S.ctl.clean.run /\ \E d \in Denom : S.pre.bal["orb"][d] > 0
        [] c = "C17" -> S.in.t = "reimport"
        [] c = "C18" -> (HasPayload(S) /\ S.in.fw.pt > 0) \/ (IsAdmin(S) /\ S.in.rpc = "UpdateParams")
        [] OTHER -> FALSE}
+
+\* human-readable detail for batched steps: which entries depart from the model
+Detail(ev, S) ==
+  IF ev.in.t = "ident" /\ Len(S.idres) = Len(ev.in.ids)
+  THEN LET M == IdentModel(S.pre, ev.in) IN
+       {<<S.idres[i].cp, {f \in DOMAIN M[i] : M[i][f] # S.idres[i][f]}>> : i \in {j \in DOMAIN M : M[j] # S.idres[j]}}
+  ELSE {}
 
 Integrity(k) ==
   LET ev == Trace[k] IN
@@ -178,7 +192,8 @@ Report ==
         viol == {c \in PropIds : ~PropHolds(c, S)}
         integ == Integrity(k)
     IN PrintT("@S " \o ToJson([k |-> k, b |-> ev.b, i |-> ev.i, why |-> Apply(S.pre, ev.in).why, ok |-> S.ok,
-                                ante |-> Ante(S), mism |-> mism, viol |-> viol, integ |-> integ]))
+                                ante |-> Ante(S), mism |-> mism, viol |-> viol, integ |-> integ,
+                                detail |-> Detail(ev, S)]))
 
 TraceAccepted == TLCGet("stats").diameter = Len(Trace) + 1
 =============================================================================
